@@ -10,7 +10,7 @@ LAYOUTS = {
     "L1": [("a", "INT")],
     "L2": [("a", "BIGINT"), ("b", "TEXT"), ("c", "DOUBLE")],
 }
-SETTINGS = {"partitions": ["1", "2", "3", "8"], "batch_size": ["1", "16", "2048", "4096"], "enable_optimizer": ["true", "false"], "enable_hash_joins": ["true", "false"]}
+SETTINGS = {"partitions": ["1", "2", "3", "8"], "batch_size": ["1", "16", "2048", "4096", "8192"], "enable_optimizer": ["true", "false"], "enable_hash_joins": ["true", "false"]}
 
 
 class SessionModel:
@@ -208,8 +208,12 @@ def gen_history(rng, nsess, nstmts, defaults, big):
             add(s, "CREATE TEMP TABLE big (a BIGINT)", "ok")
             add(s, "SET partitions TO 1", "ok")
             m.settings["partitions"] = "1"
+            # batches larger than a storage chunk (2048 rows) are split over several chunks when appended
+            bsz = rng.choice(["2048", "4096", "8192", "8192"])
+            add(s, f"SET batch_size TO {bsz}", "ok")
+            m.settings["batch_size"] = bsz
             add(s, "INSERT INTO big SELECT x FROM generate_series(1, 40000) g(x)", "ok", ("count", 40000))
-            add(s, "SELECT count(*), sum(a), min(a), max(a) FROM big", "ok", ("row", [40000, 40000 * 40001 // 2, 1, 40000]))
+            add(s, "SELECT count(*), sum(a), min(a), max(a), count(DISTINCT a) FROM big", "ok", ("row", [40000, 40000 * 40001 // 2, 1, 40000, 40000]))
             # the statement must read the table as of its start even when its own appends are flushed while it runs
             p = rng.choice(["1", "2", "8"])
             add(s, f"SET partitions TO {p}", "ok")
@@ -275,7 +279,7 @@ def run(chk):
     meta = {}
     for hi in range(nhist):
         nsess = rng.choice([1, 1, 2, 3])
-        hist = gen_history(rng, nsess, rng.choice([30, 60, 150]), defaults, big=(hi % 10 == 0))
+        hist = gen_history(rng, nsess, rng.choice([30, 60, 150]), defaults, big=(hi % 5 == 0))
         steps = [{"s": 0, "sql": f"SHOW {k}"} for k in SETTINGS]
         spec = [("default", k, None, 0) for k in SETTINGS]
         for h in hist:
